@@ -425,6 +425,13 @@ func (c *FnCtx) selectField(env *SpecEnv, x Val, name string, e *Expr) (Val, err
 	}
 	pt, ok := x.T.Underlying().(*types.Pointer)
 	if !ok {
+		// ghost field attached to a named scalar type (e.g. an interface such as clock.Clock)
+		if _, isNamed := x.T.(*types.Named); isNamed && x.IsScalar() {
+			if ft, ghost := c.fieldType(x.T, name); ft != nil && ghost {
+				a := &Addr{Space: "F", Key: typeName(x.T), Idx: []string{x.S}, Path: "$" + name, T: ft}
+				return c.loadAt(env.heap, a), nil
+			}
+		}
 		return Val{}, fmt.Errorf("field selection %s on non-pointer, non-struct %s in %s", name, shortTypeName(x.T), e)
 	}
 	var base *Addr
